@@ -170,8 +170,23 @@ def s_omegaconf(eoe, **kw):
 
 MODES = [("cfg", "cfg"), ("i", "int"), ("di", "Dict[str,int]"), ("d", "dataclass"), ("m", "Optional[class]")]
 
+
+def s_jsonmode(eoe, **kw):
+    # a mode whose own loader is not PyYAML: what the type arms read with PyYAML must still fail as a parse error
+    p = base_parser(eoe, parser_mode="json", **kw)
+    p.add_argument("--i", type=int, default=1)
+    p.add_argument("--f", type=float)
+    p.add_argument("--b", type=bool)
+    p.add_argument("--di", type=Dict[str, int])
+    p.add_argument("--d", type=DC)
+    p.add_argument("--m", type=Optional[Base], default=None)
+    return p
+
+
+JSONMODE = [("cfg", "cfg"), ("i", "int"), ("f", "float"), ("b", "bool"), ("di", "Dict[str,int]"), ("d", "dataclass"), ("m", "Optional[class]")]
+
 SHAPES = [("flat", s_flat, FLAT), ("nested", s_nested, NESTED), ("subclass", s_subclass, SUBCLASS), ("subcommands", s_subcommands, SUBCOMMANDS),
-          ("inner", s_inner, INNER), ("jsonnet", s_jsonnet, MODES), ("omegaconf", s_omegaconf, MODES)]
+          ("inner", s_inner, INNER), ("jsonnet", s_jsonnet, MODES), ("omegaconf", s_omegaconf, MODES), ("jsonmode", s_jsonmode, JSONMODE)]
 
 # ------------------------------------------------------------------ the value grammar
 V_SCALAR = ["1", "abc", "", " ", "null", "true", "-1", "1.5", "0x_", "0b_", "._", "-._", "+.__", ".inf", ".nan", "1e3", "1_000", "1:30", "~", "2020-01-01",
@@ -204,9 +219,9 @@ V_CLASS = [cp("Leaf"), "Leaf", "Base", "bounded.gen_f", cp("not_a_class"), cp("N
            '{"class_path": "%s"}' % cp("Leaf"), '{"class_path": "%s", "init_args": {"req": 1}}' % cp("Leaf"), '{"x": 1}', '{"x": "a"}', '{"x": 1, "inner": 1}',
            '{"x": 1, "inner": {"p": []}}', '{"x": 1, "inner": {"zz": 1}}', '[{"x": 1}, 1]', '[{"x": 1, "zz": 2}]', '{"k": {"x": "a"}}', '{"k": 1}', "[1, 2]", '[1, "a", 3]',
            '{"a": 1}', '{"a": "b"}', '{"a": {"b": 1}}', '{"1": 1}', "{1: 1}", "{null: 1}", "{true: 1}", "{[1]: 1}"]
-V_PATHS = ["<missing>", "<dir>", "<empty>", "<binary>", "<nulfile>", "<selfalias>", "<good>", "<unreadable>", "/dev/null", "/", "a\x00b", "x" * 5000, "~", "~nouser/x", "./", "..",
+V_PATHS = ["<missing>", "<dir>", "<empty>", "<binary>", "<nulfile>", "<selfalias>", "<good>", "<unreadable>", "<dangling>", "<linkloop>", "/dev/null", "/", "a\x00b", "x" * 5000, "~", "~nouser/x", "./", "..",
            "file:///tmp", "http://localhost:1/x", "<dir>/", "<good>/x"]
-QUICK_VALUES = ["1", "abc", "", "null", "._", "1" + "0" * 400, "{", "!!timestamp x", "&x [*x]", "-", "--", "\x00", '{"class_path": 1}', cp("Leaf"), "os", "<missing>", "<dir>", "=",
+QUICK_VALUES = ["1", "abc", "", "null", "._", "1" + "0" * 400, "{", "!!timestamp x", "&x [*x]", "-", "--", "\x00", '{"class_path": 1}', cp("Leaf"), "os", "<missing>", "<dir>", "<dangling>", "=",
                 "a: 1\n b: 2", "[._]", "{a: !!bool x}", cp("Nope"), "nonexistent.Mod"]
 
 NAME_VARIANTS = ["--N", "--N.", "--N..", "--N.zzq", "--N..zzq", "--N+", "--N++", "--N+.x", "--N.init_args", "--N.init_args.", "--N.init_args.zzq", "--N.init_args.req",
@@ -322,7 +337,10 @@ class Files:
         self.tmp = tmp
         self.map = {"<missing>": os.path.join(tmp, "missing.yaml"), "<dir>": os.path.join(tmp, "adir"), "<empty>": os.path.join(tmp, "empty.yaml"),
                     "<binary>": os.path.join(tmp, "binary.yaml"), "<nulfile>": os.path.join(tmp, "nul.yaml"), "<selfalias>": os.path.join(tmp, "self.yaml"),
-                    "<good>": os.path.join(tmp, "good.yaml"), "<unreadable>": os.path.join(tmp, "unreadable.yaml")}
+                    "<good>": os.path.join(tmp, "good.yaml"), "<unreadable>": os.path.join(tmp, "unreadable.yaml"),
+                    "<dangling>": os.path.join(tmp, "dangling.yaml"), "<linkloop>": os.path.join(tmp, "loop.yaml")}
+        os.symlink(os.path.join(tmp, "removed-target.yaml"), self.map["<dangling>"])  # a link whose target is gone
+        os.symlink(self.map["<linkloop>"], self.map["<linkloop>"])  # a link to itself
         os.mkdir(self.map["<dir>"])
         open(self.map["<empty>"], "w").close()
         with open(self.map["<binary>"], "wb") as f:
